@@ -328,6 +328,30 @@ theorem C17_idle_holds_nothing {s : St} (h : Reachable s) {t : Tid} (hp : s.pc t
   have := ((inv_reachable h).lk t).mp hl
   rw [hp] at this; simp [Pc.inCS] at this
 
+/-- Every plain access to the two maps that the model accepts is made by the thread holding `mapLock`
+(or by the destructor tearing the maps down after its final release), it changes nothing in the model,
+and while the holder exists two different threads can never both be in a position to access the maps:
+the maps are data-race-free. -/
+theorem C17_map_access_under_lock {s s' : St} {t : Tid} (h : Reachable s) (hs : step s t .mac = some s') :
+    s' = s ∧ (s.lock = some t ∨ s.gone = true) := by
+  have htr := step_tr hs
+  cases htr with
+  | mac hl =>
+    refine ⟨rfl, ?_⟩
+    rcases hl with hl | hl
+    · exact Or.inl hl
+    · exact Or.inr ((inv_reachable h).d t hl)
+
+theorem C17_map_access_exclusive {s : St} {t u : Tid} (h : Reachable s) (hg : s.gone = false)
+    (ht : (step s t .mac).isSome = true) (hu : (step s u .mac).isSome = true) : t = u := by
+  obtain ⟨s1, h1⟩ := Option.isSome_iff_exists.mp ht
+  obtain ⟨s2, h2⟩ := Option.isSome_iff_exists.mp hu
+  rcases (C17_map_access_under_lock h h1).2 with a | a
+  · rcases (C17_map_access_under_lock h h2).2 with b | b
+    · rw [a] at b; injection b
+    · rw [hg] at b; contradiction
+  · rw [hg] at a; contradiction
+
 /-- The lock holder is never blocked: it always has an enabled next step. -/
 theorem C17_holder_enabled {s : St} (h : Reachable s) {t : Tid} (hl : s.lock = some t) :
     ∃ e, (step s t e).isSome = true := by
@@ -346,7 +370,8 @@ theorem C17_holder_enabled {s : St} (h : Reachable s) {t : Tid} (hl : s.lock = s
     · exact ⟨.mul, by simp [step, hp, hl, hc]⟩
     · exact ⟨.mul, by simp [step, hp, hl, hc]⟩
 
-/-- each critical section is finite: a bounded measure strictly decreases with every step of the holder -/
+/-- each critical section is finite: a bounded measure strictly decreases with every step of the holder
+(payload destructions and plain map accesses, which the model accepts as stutter steps, aside) -/
 def csMeasure : Pc → Nat
   | .cs _ res pend => pend.length + (if res = .threw then 3 else 2)
   | .thrown _ => 2
@@ -354,7 +379,7 @@ def csMeasure : Pc → Nat
   | _ => 1
 
 theorem C17_cs_bounded {s s' : St} {t : Tid} {e : Ev} (hcs : (s.pc t).inCS = true) (hs : step s t e = some s')
-    (hne : ∀ k, e ≠ .pdt k) : csMeasure (s'.pc t) < csMeasure (s.pc t) := by
+    (hne : ∀ k, e ≠ .pdt k) (hnm : e ≠ .mac) : csMeasure (s'.pc t) < csMeasure (s.pc t) := by
   have htr := step_tr hs
   cases htr <;> simp_all [Pc.inCS, csMeasure]
 
